@@ -274,6 +274,18 @@ Theorem C14_estring_escaped_quote_refuted :
   gate_gen fx_before_quotes s [] = OExec [] Transformed s /\ harmless (gate_gen fx_all s []) = true.
 Proof. vm_compute. split; reflexivity. Qed.
 
+(* the current backticksToDoubleQuotes as transcribed by the shared lexical model and the independent reading of the
+   same loop in this area give the same bytes on these statements, and both differ from the old unconditional
+   replacement exactly where the finding lies *)
+Example bt2dq_readings_agree :
+  forallb (fun s => bytes_eqb (bt2dq true s) (bt2dq_outside 0 false s))
+    [ bs ("SELECT 1 AS ""a`b"", p.v FROM db1.cpu c, """ ++ canary ++ """ p");
+      bs "SELECT `a``b`, 'x`y', ""q""""`"", '''`' FROM `cpu` WHERE t = '`' OR `x` = 1";
+      bs "SELECT 'unterminated ` FROM `cpu`"; bs "no backtick at all"; bs "`" ] = true
+  /\ bt2dq false (bs "SELECT ""a`b"", `c`") = bs "SELECT ""a""b"", ""c"""
+  /\ bt2dq true  (bs "SELECT ""a`b"", `c`") = bs "SELECT ""a`b"", ""c""".
+Proof. vm_compute. repeat split. Qed.
+
 (* ==================================================================================== *)
 (* C16 (rewriting)                                                                        *)
 (* ==================================================================================== *)
